@@ -139,6 +139,27 @@ def gen_c05_client(ctx):
                 yield line(c0, start(rng, cfg, login=False) + ["list:-:0@" + "/".join(g)])
     ctx["scopes"].append("ASCII downloads / listings whose segments are cut between CR and LF (paused peer), with and without a transfer callback x four methods")
 
+    # several ASCII transfers over ONE client: what a transfer transmits / delivers depends on its own bytes only - not on how
+    # the previous one ended (texts that end in CR, in CR LF, in LF; texts that begin with LF, with CR)
+    ends = [b"one\r", b"two\r\n", b"three\n", b"\r", b"four"]
+    begins = [b"\nfirst", b"\n\n", b"\rx", b"plain\r\n", b"\n"]
+    for mode in "pa":
+        for rfc in (0, 1):
+            cfg = Cfg(rng, "C05", mode=mode, rfc=rfc, ttype="A", ip=4); c0 = str(cfg)
+            for kind in ("put", "get", "mixed"):
+                ops = start(rng, cfg, login=False)
+                for i, (e, b) in enumerate(zip(ends, begins)):
+                    for text in (e, b):
+                        up = kind == "put" or (kind == "mixed" and (i % 2 == 0))
+                        if up:
+                            g = [setup_groups(rng, cfg), ",".join([rnd_reply(rng, 150), rnd_reply(rng, 226), "Drecv:-:c"])]
+                            ops.append("put:%s:%s:h%s:-:ok:-@" % (rng.choice(["STOR", "APPE"]), H(b"t.txt"), text.hex()) + "/".join(g))
+                        else:
+                            g = [setup_groups(rng, cfg), ",".join([rnd_reply(rng, 150), rnd_reply(rng, 226), "Dsend:h%s::c" % text.hex()])]
+                            ops.append("get:%s:ok:-@" % H(b"t.txt") + "/".join(g))
+                yield line(c0, ops)
+    ctx["scopes"].append("ten consecutive ASCII uploads / downloads / both over one client, texts ending in CR / CR LF / LF and beginning with LF / CR x four methods")
+
 # ---------------------------------------------------------------- C04 upload
 def gen_c04(ctx):
     rng = ctx["rng"]
